@@ -408,8 +408,22 @@ func (s *Server) HandleReader(ctx context.Context, reader io.Reader) ([]byte, ht
 		return nil, header, nil
 	}
 
-	result, err := json.Marshal(resp)
+	result, err := marshalResponse(resp)
 	return result, header, err
+}
+
+// marshalResponse marshals a response. If what the handler returned cannot be marshalled, the request is
+// answered with an Internal error (carrying the request's id) instead of getting no response at all.
+func marshalResponse(resp *response) ([]byte, error) {
+	result, err := json.Marshal(resp)
+	if err != nil {
+		result, err = json.Marshal(&response{
+			Version: "2.0",
+			Error:   Err(InternalError, err.Error()),
+			ID:      resp.ID,
+		})
+	}
+	return result, err
 }
 
 func (s *Server) handleBatchRequest(ctx context.Context, batchReq []json.RawMessage) ([]byte, http.Header, error) {
@@ -419,8 +433,8 @@ func (s *Server) handleBatchRequest(ctx context.Context, batchReq []json.RawMess
 		headers   []http.Header
 	)
 
-	addResponse := func(response any, header http.Header) {
-		if responseJSON, err := json.Marshal(response); err != nil {
+	addResponse := func(response *response, header http.Header) {
+		if responseJSON, err := marshalResponse(response); err != nil {
 			s.logger.Error("failed to marshal response", zap.Error(err))
 		} else {
 			mutex.Lock()
@@ -440,7 +454,7 @@ func (s *Server) handleBatchRequest(ctx context.Context, batchReq []json.RawMess
 
 		req := new(Request)
 		if err := reqDec.Decode(req); err != nil {
-			addResponse(errResponse(InvalidRequest, err.Error()), http.Header{})
+			addResponse(new(errResponse(InvalidRequest, err.Error())), http.Header{})
 			continue
 		}
 
@@ -512,8 +526,17 @@ func isNilOrEmpty(i any) (bool, error) {
 	}
 }
 
-// TODO: add recover() to catch panics from handlers/validators and return a JSON-RPC internal error
-// instead of crashing the HTTP connection
+// callHandler invokes the handler and recovers a panic, so that a failing handler costs an Internal error
+// response instead of the connection (single request) or, silently, the response (batch entry).
+func callHandler(handler any, args []reflect.Value) (tuple []reflect.Value, panicValue any) {
+	defer func() {
+		if r := recover(); r != nil {
+			panicValue = r
+		}
+	}()
+	return reflect.ValueOf(handler).Call(args), nil
+}
+
 func (s *Server) handleRequest(ctx context.Context, req *Request) (*response, http.Header, error) {
 	s.logger.Trace("Received request", zap.Object("req", req))
 
@@ -559,7 +582,19 @@ func (s *Server) handleRequest(ctx context.Context, req *Request) (*response, ht
 		s.listener.OnRequestHandled(req.Method, time.Since(handlerTimer))
 	}()
 
-	tuple := reflect.ValueOf(calledMethod.Handler).Call(args)
+	tuple, panicValue := callHandler(calledMethod.Handler, args)
+	if panicValue != nil {
+		s.logger.Error("RPC handler panicked",
+			zap.String("method", log.SanitizeString(req.Method)),
+			zap.Any("panic", panicValue),
+		)
+		if res.ID == nil { // notification
+			return nil, header, nil
+		}
+		res.Error = Err(InternalError, "handler panicked")
+		s.listener.OnRequestFailed(req.Method, res.Error)
+		return res, header, nil
+	}
 	if res.ID == nil { // notification
 		s.logger.Trace("Notification received, no response expected")
 		return nil, header, nil
